@@ -213,7 +213,7 @@ def classify(res, r, lines, unit, seed, path):
             if 0 <= ln < len(lines) and lines[ln].clause:
                 clause = lines[ln].clause
                 break
-        known_kinds = ("not satisfied", "assertion failed", "possible arithmetic", "possible division", "decreases", "might not be allowed", "possible bit shift", "index out of", "postcondition", "precondition", "invariant")
+        known_kinds = ("not satisfied", "assertion failed", "possible arithmetic", "possible division", "decreases", "might not be allowed", "possible bit shift", "index out of", "postcondition", "post-condition", "precondition", "pre-condition", "invariant")
         if fn is None:
             if spans:
                 res.undecided.append("unit %s: failure outside extracted code (spec library / scaffolding): %s" % (unit.name, rendered.strip()[:600]))
